@@ -301,6 +301,9 @@ func (f *FuncCtx) call(st *State, call *ast.CallExpr) []Term {
 		packed := Term{S: fmt.Sprintf("(mk_%s %d %s)", ss, n, cur), Sort: ss, GoT: st0}
 		args = append(args[:np-1:np-1], packed)
 	}
+	if c, ok := f.w.contracts[key]; ok && c.Extern && len(c.Implementers) > 0 && recv != nil {
+		return f.dispatchCall(st, c, fn, recv, args, call)
+	}
 	if c, ok := f.w.contracts[key]; ok {
 		if c.Inline && f.w.funcs[key] != nil && f.inlineDepth < 4 {
 			return f.inlineCall(st, f.w.funcs[key], recv, args, call)
@@ -314,6 +317,21 @@ func (f *FuncCtx) call(st *State, call *ast.CallExpr) []Term {
 		}
 	}
 	var rs []Term
+	if fn.Pkg() != nil && (strings.Contains(fn.Pkg().Path(), "/antlr/parser/") || strings.Contains(fn.Pkg().Path(), "antlr4-go/antlr")) &&
+		recv != nil && sig.Params().Len() == 0 && sig.Results().Len() == 1 {
+		// T-ANTLR: a parse-tree accessor (ctx.GetText(), ctx.RuleName(), node.GetText() ...) is a function of the node: the tree is
+		// immutable while the listener walks it. The symbol is antlr_<Method> (suffix _<sort> unless the result is a string/reference)
+		rsort := f.sortOfT(sig.Results().At(0).Type())
+		name := "antlr_" + fn.Name()
+		if rsort != SStr && rsort != SInt {
+			name += "_" + mangle(rsort)
+		}
+		f.declareFun(name, []string{SInt}, rsort)
+		f.assumed["T-ANTLR: parse-tree accessors are functions of the node (the tree is immutable during the walk), effect-free, and do not panic on a non-nil node"] = true
+		r := Term{S: "(" + name + " " + recv.S + ")", Sort: rsort, GoT: sig.Results().At(0).Type()}
+		f.typeFacts(st, r)
+		return []Term{r}
+	}
 	for i := 0; i < sig.Results().Len(); i++ {
 		rs = append(rs, f.havocVal(st, "r_"+fn.Name(), sig.Results().At(i).Type()))
 	}
@@ -710,6 +728,48 @@ func (f *FuncCtx) inlineCall(st *State, fi *FuncInfo, recv *Term, args []Term, c
 		delete(m.vars, tv)
 	}
 	m.ret = nil
+	*st = *m
+	return rs
+}
+
+// dispatchCall: a call through an interface whose contract lists its implementers (closed world, re-checked against the type
+// checker on every run) is analysed by cases on the dynamic type: in each case the IMPLEMENTER's contract is applied - its
+// precondition is an obligation under that case - and the cases are merged. The interface contract's own clauses are not used.
+func (f *FuncCtx) dispatchCall(st *State, c *Contract, fn *types.Func, recv *Term, args []Term, call *ast.CallExpr) []Term {
+	f.usedCons[fn.FullName()] = true
+	sig := fn.Type().(*types.Signature)
+	byShort := f.w.shortIndex()
+	var rs []Term
+	for i := 0; i < sig.Results().Len(); i++ {
+		rs = append(rs, f.havocVal(st, "r_"+fn.Name(), sig.Results().At(i).Type()))
+	}
+	f.assumed["closed world: a value of interface type "+types.TypeString(sig.Recv().Type(), nil)+" has one of the listed implementing types (list checked against the type checker on every run)"] = true
+	var outs []*State
+	for n, it := range c.Implementers {
+		ik, ok := byShort[it]
+		ic := f.w.contracts[ik]
+		ifi := f.w.funcs[ik]
+		if !ok || ic == nil || ifi == nil {
+			unsup("implementer %s of %s has no contract", it, shortName(fn.FullName()))
+		}
+		b := st.clone()
+		irt := ifi.Obj.Type().(*types.Signature).Recv().Type()
+		b.assume(fmt.Sprintf("(= (dyntype %s) %d)", recv.S, f.w.typeID(irt)))
+		r := *recv
+		r.GoT = irt
+		res := f.applyContract(b, ic, ifi.Obj, &r, args, f.site(fmt.Sprintf("call:%s/%d", fn.Name(), n+1)), f.pos(call))
+		for i := range rs {
+			if i < len(res) {
+				b.assume("(= " + rs[i].S + " " + res[i].S + ")")
+			}
+		}
+		outs = append(outs, b)
+	}
+	m := f.merge(outs)
+	if m == nil {
+		st.assume("false")
+		return rs
+	}
 	*st = *m
 	return rs
 }
